@@ -174,6 +174,44 @@ func nodeStats(n *eng.Node, depth int, h map[string]int, maxDepth *int) (nodes i
 	return
 }
 
+// engineGen configures the generator of case i of the engine stream (a pure function of variant and i)
+func engineGen(g *eng.Gen, variant string, i int) {
+	switch variant {
+	case "fmt":
+		g.FmtModes = true
+	case "nearsuccess":
+		g.NearSuccess = true
+		g.Populated = true
+	case "prepop":
+		g.NearSuccess = true
+		g.Prepop = true
+	case "share":
+		g.Share = true
+		g.CatchBias = i%2 == 0
+	case "catch":
+		g.CatchBias = true
+	case "noposts":
+		g.NoPosts = true
+	default:
+		if i%3 == 1 {
+			g.CatchBias = true
+		}
+	}
+}
+
+// regenerateEngineCase rebuilds case `idx` of the stream and executes it on the implementation.
+func regenerateEngineCase(seed uint64, variant string, idx int) (string, string) {
+	root := rng.New(seed)
+	var g *eng.Gen
+	for i := 0; i <= idx; i++ {
+		g = &eng.Gen{R: root.Fork()}
+	}
+	engineGen(g, variant, idx)
+	c := g.Case(idx)
+	res := eng.Run(c)
+	return c.Line(res.Order), res.Sx(c.ID).String()
+}
+
 func streamEngine(seed uint64, n int, driver, corpus, dump, variant string) (*Summary, error) {
 	sum := newSummary("engine", seed)
 	sum.Rule = "random schema trees (prim/slice/ptr/struct/custom, depth<=4, <=4 fields, all modifier combinations, built-in and table-defined tests, PostTransforms) with mostly-valid inputs plus absent / wrongly typed ones, both modes; non-trivial = >=2 schema nodes and (>=1 issue or a catch/default/PostTransform present); distinct = distinct case line"
@@ -183,29 +221,7 @@ func streamEngine(seed uint64, n int, driver, corpus, dump, variant string) (*Su
 	var lines []string
 	for i := 0; i < n; i++ {
 		g := &eng.Gen{R: root.Fork()}
-		switch variant {
-		case "fmt":
-			g.FmtModes = true
-		case "nearsuccess":
-			g.NearSuccess = true
-			g.Populated = true
-		case "prepop":
-			// successful Parses into destinations that already hold values (second Parse into the same
-			// variable, pre-filled structs, slices with spare capacity)
-			g.NearSuccess = true
-			g.Prepop = true
-		case "share":
-			g.Share = true
-			g.CatchBias = i%2 == 0
-		case "catch":
-			g.CatchBias = true
-		case "noposts":
-			g.NoPosts = true
-		default:
-			if i%3 == 1 {
-				g.CatchBias = true
-			}
-		}
+		engineGen(g, variant, i)
 		c := g.Case(i)
 		res := eng.Run(c)
 		cases = append(cases, c)
@@ -283,7 +299,8 @@ func streamEngine(seed uint64, n int, driver, corpus, dump, variant string) (*Su
 		for _, prop := range engineProps {
 			ip, mp := iv.project(prop), mv.project(prop)
 			if ip != mp {
-				sum.addMismatch(prop, Mismatch{Case: lines[i], Impl: implLine, Model: modelLine, What: "projection " + prop + ": impl=" + ip + " model=" + mp})
+				sum.addMismatch(prop, Mismatch{Case: lines[i], Impl: implLine, Model: modelLine, What: "projection " + prop + ": impl=" + ip + " model=" + mp,
+					Stream: "engine", Variant: variant, Seed: seed, Index: i})
 			}
 		}
 	}
